@@ -83,6 +83,25 @@ template<class Sk, class Mk> static Scenario updates(const char* name, const cha
   };
   return sc;
 }
+// the history continues on a COPY (copy constructor or copy assignment) taken after `pos(n)` updates: the copy must behave like the original -
+// in particular its coin state (REQ: the pending flipped coin of an odd compaction counter) must come along
+template<class Sk, class Mk, class Pos> static Scenario updates_copy(const std::string& name, const char* fam, int nmin, int nmax, uint64_t salt, bool assign, Mk mk, Pos pos) {
+  Scenario sc; sc.name = name; sc.fam = fam; sc.nmin = nmin; sc.nmax = nmax;
+  sc.stream = [=](int n) { return values(n, salt, 0); };
+  sc.run = [=](int n, const std::vector<double>& probes) {
+    std::unique_ptr<Sk> cur(new Sk(mk(0)));
+    std::vector<double> v = values(n, salt, 0); const int p = pos(n);
+    for (int i = 0; i < n; i++) {
+      cur->update((float)v[i]); tick();
+      if (i + 1 == p) {
+        if (assign) { std::unique_ptr<Sk> c(new Sk(mk(0))); c->update((float)v[0]); *c = *cur; cur.swap(c); }
+        else { std::unique_ptr<Sk> c(new Sk(*cur)); cur.swap(c); }
+      }
+    }
+    return measure(*cur, probes);
+  };
+  return sc;
+}
 // A gets pa % of the stream, B pb % (its own k), A.merge(B) (lvalue or rvalue), then A continues with the rest
 template<class Sk, class Mk> static Scenario merged(const char* name, const char* fam, int nmin, int nmax, uint64_t salt, bool rv, Mk mk, int pa = 40, int pb = 50, int dup = 0) {
   Scenario sc; sc.name = name; sc.fam = fam; sc.nmin = nmin; sc.nmax = nmax;
@@ -93,9 +112,11 @@ template<class Sk, class Mk> static Scenario merged(const char* name, const char
     Sk a = mk(0), b = mk(1);
     for (int i = 0; i < na; i++) { a.update((float)v[i]); tick(); }
     for (int i = na; i < na + nb; i++) { b.update((float)v[i]); tick(); }
+    // query - mutate - query: the target's sorted view is cached by a query right before the merge
+    if (!a.is_empty()) (void)a.get_rank((float)v[0], true);
     if (rv) a.merge(std::move(b)); else a.merge(b);
     tick();
-    for (int i = na + nb; i < n; i++) { a.update((float)v[i]); tick(); }
+    for (int i = na + nb; i < n; i++) { if (!a.is_empty()) (void)a.get_rank((float)v[0], false); a.update((float)v[i]); tick(); }
     return measure(a, probes);
   };
   return sc;
@@ -188,7 +209,7 @@ static uint64_t level0_state(const req_sketch<float>& s) {
   if (s.get_n() <= 4) return 0;
   auto b = s.serialize(); uint64_t st; memcpy(&st, b.data() + (s.is_estimation_mode() ? 24 : 8), 8); return st;
 }
-static Scenario req_shape(const std::string& name, bool hra, const std::vector<int>& lens, const Shape& shape, int post_min, uint64_t salt, bool rv) {
+static Scenario req_shape(const std::string& name, bool hra, const std::vector<int>& lens, const Shape& shape, int post_min, uint64_t salt, bool rv, int copy = 0) {
   Scenario sc; sc.name = name; sc.fam = "req"; sc.skip_if_over = true;
   // continue after the merges until the final sketch's level-0 compactor has compacted twice more (one even, one odd compaction)
   int post = post_min;
@@ -211,6 +232,9 @@ static Scenario req_shape(const std::string& name, bool hra, const std::vector<i
     std::vector<std::unique_ptr<R>> sk; size_t pos = 0;
     for (int x : lens) { sk.emplace_back(new R(4, hra)); for (int i = 0; i < x; i++) { sk.back()->update((float)v[pos++]); tick(); } }
     for (auto& m : shape) { if (rv) sk[m.first]->merge(std::move(*sk[m.second])); else sk[m.first]->merge(*sk[m.second]); tick(); }
+    // copy = 1 / 2: the merged sketch is replaced by a copy of itself (copy constructor / copy assignment) before it continues
+    if (copy == 1) { std::unique_ptr<R> c(new R(*sk[0])); sk[0].swap(c); }
+    else if (copy == 2) { std::unique_ptr<R> c(new R(4, hra)); *c = *sk[0]; sk[0].swap(c); }
     while (pos < v.size()) { sk[0]->update((float)v[pos++]); tick(); }
     return measure(*sk[0], probes);
   };
@@ -230,12 +254,12 @@ static void req_shapes(std::vector<std::vector<Scenario>>& parts, int m, uint64_
   }
   int patterns = 1; for (int i = 0; i < m; i++) patterns *= 3;
   std::vector<Scenario> cur; int idx = 0;
-  for (int p = 0; p < patterns; p++) for (size_t sh = 0; sh < shapes.size(); sh++) for (int var = 0; var < 2; var++, idx++) {
+  for (int p = 0; p < patterns; p++) for (size_t sh = 0; sh < shapes.size(); sh++) for (int var = 0; var < 2; var++) for (int cp = 0; cp < 2; cp++, idx++) {
     const bool hra = (p + (int)sh + var) % 2 == 0;
     std::vector<int> L = req_lengths(hra, var);
     std::vector<int> lens; std::string pat; int q = p;
     for (int i = 0; i < m; i++) { lens.push_back(L[q % 3]); pat += CN[q % 3]; q /= 3; }
-    cur.push_back(req_shape("req-shape" + std::to_string(m) + "-" + sn[sh] + "-" + pat + (var ? "-b" : "-a") + (hra ? "-hra" : "-lra"), hra, lens, shapes[sh], 30, seed * 131 + (uint64_t)idx, idx % 3 == 0));
+    cur.push_back(req_shape("req-shape" + std::to_string(m) + "-" + sn[sh] + "-" + pat + (var ? "-b" : "-a") + (cp ? "-copy" : "") + (hra ? "-hra" : "-lra"), hra, lens, shapes[sh], 30, seed * 131 + (uint64_t)idx, idx % 3 == 0, cp ? 1 + (p + (int)sh) % 2 : 0));
     if (cur.size() == per_part) { parts.push_back(cur); cur.clear(); }
   }
   if (!cur.empty()) parts.push_back(cur);
@@ -271,6 +295,7 @@ static Scenario downsample(const std::string& name, int ratio, bool small_absorb
     for (int i = nt; i < n; i++) large.update((float)v[i]);
     random_utils::override_seed(g_rand_seed);
     std::mt19937_64 before = random_utils::rand;
+    (void)small.get_rank((float)v[0], true); (void)large.get_rank((float)v[0], true);    // the targets' sorted views are cached before the merge
     if (small_absorbs) small.merge(large); else large.merge(small);
     long d = 0; while (d <= 64 && !(before == random_utils::rand)) { before(); d++; }
     Result r = measure(small_absorbs ? small : large, probes);
@@ -326,8 +351,27 @@ int main(int argc, char** argv) {
     pq.push_back(merged<Q>("classic-dup-merge", "classic", 16, 28, seed * 11 + 73, false, [](int) { return Q(2); }, 40, 50, -2));
     parts.push_back(pk); parts.push_back(pr); parts.push_back(pq);
   }
-  req_shapes(parts, 3, seed, 18);
-  if (vt::argl(argc, argv, "--shapes4", 0)) req_shapes(parts, 4, seed + 1, 54);
+  // the history continues on a COPY taken at several points (REQ: where the level-0 compaction counter is odd / even non-zero / zero)
+  {
+    std::vector<Scenario> pc; int j = 0;
+    for (int hra = 0; hra < 2; hra++) for (int cls = 0; cls < 3; cls++) for (int assign = 0; assign < 2; assign++, j++) {
+      const int at = req_lengths(hra == 1, assign)[cls] + (cls == 0 ? 7 : 0);
+      pc.push_back(updates_copy<R>(std::string("req-copy-at-") + "ZEO"[cls] + (assign ? "-assign" : "-ctor") + (hra ? "-hra" : "-lra"), "req", at + 70, at + 70,
+                                   seed * 11 + 80 + j, assign == 1, [=](int) { return R(4, hra == 1); }, [=](int) { return at; }));
+    }
+    for (int q = 1; q <= 3; q++) for (int assign = 0; assign < 2; assign++, j++) {
+      pc.push_back(updates_copy<K>(std::string("kll-copy-at-") + std::to_string(q) + "of4" + (assign ? "-assign" : "-ctor"), "kll", 40, 100, seed * 11 + 80 + j, assign == 1,
+                                   [](int) { return K(8); }, [=](int n) { return n * q / 4; }));
+      pc.push_back(updates_copy<Q>(std::string("classic-copy-at-") + std::to_string(q) + "of4" + (assign ? "-assign" : "-ctor"), "classic", 12, 20, seed * 11 + 110 + j, assign == 1,
+                                   [](int) { return Q(2); }, [=](int n) { return n * q / 4; }));
+    }
+    // classic: target queried, then an estimating source with an EMPTY base buffer (n a multiple of 2k) merged, then queried at once
+    pc.push_back(merged<Q>("classic-merge-cached-view-empty-base-buffer", "classic", 20, 20, seed * 11 + 140, false, [](int) { return Q(2); }, 40, 60));
+    pc.push_back(merged<Q>("classic-merge-cached-view-empty-base-buffer-rvalue", "classic", 20, 20, seed * 11 + 141, true, [](int) { return Q(2); }, 40, 60));
+    parts.push_back(pc);
+  }
+  req_shapes(parts, 3, seed, 36);
+  if (vt::argl(argc, argv, "--shapes4", 0)) req_shapes(parts, 4, seed + 1, 108);
   if (vt::argl(argc, argv, "--count", 0)) { printf("%zu\n", parts.size()); return 0; }
   long seg = 0, done = 0;
   for (size_t i = 0; i < parts.size(); i++) if (part < 0 || (size_t)part == i) for (auto& sc : parts[i]) { if (execute(sc, fmax, seg++)) done++; }
